@@ -5,6 +5,9 @@ import hashlib, json, os, re, shutil, subprocess, sys, time, glob
 ROOT = os.path.dirname(os.path.dirname(os.path.abspath(__file__)))
 REPO = os.environ.get('VERIF_REPO', '/repo')
 BUILD = os.path.join(ROOT, 'build')
+# when checks are pointed at another copy of the repository (seed matrix runs) evidence and replay files go to a scratch place
+ALT = os.environ.get('VERIF_REPO', '/repo') != '/repo'
+OUTROOT = os.path.join(BUILD, 'alt') if ALT else ROOT
 INC = ['-I' + os.path.join(REPO, 'include'), '-I/usr/include/eigen3', '-I' + os.path.join(REPO, 'external/tl'),
        '-I' + os.path.join(ROOT, 'engine')]
 CXX = os.environ.get('VERIF_CXX', 'g++')
@@ -312,7 +315,7 @@ def run_property(prop, tier, seed, jobs, replay=None, units_filter=None, build_o
             print('BUILD-FAIL', u.name, log[-800:])
         return 0
     # ---- run
-    outdir = os.path.join(BUILD, 'run', prop + '_' + tier)
+    outdir = os.path.join(BUILD, 'alt_run' if ALT else 'run', prop + '_' + tier)
     os.makedirs(outdir, exist_ok=True)
     tasks = []
     okunits = [u for (u, ok, log) in bres if ok]
@@ -401,7 +404,7 @@ def aggregate(spec, prop, tier, seed, results, py_results, build_fail, t0, t_bui
     # ---- output
     for src, (e, n) in sorted(known_hit.items()):
         print('KNOWN-FINDING: property=%s %s [cells=%d pattern=%s]' % (prop, e['what'], n, src))
-    rdir = os.path.join(ROOT, 'replay', prop)
+    rdir = os.path.join(OUTROOT, 'replay', prop)
     if os.path.isdir(rdir) and not replay_obj:
         shutil.rmtree(rdir)
     printed = 0
@@ -431,7 +434,7 @@ def aggregate(spec, prop, tier, seed, results, py_results, build_fail, t0, t_bui
     ev = dict(property_id=prop, tier=tier, seed=seed, level=spec.level, coverage=cov, assumptions=spec.assumptions,
               wall_s=round(wall, 2), violations=len(seen_keys))
     if not replay_obj:
-        write_json(os.path.join(ROOT, 'evidence', prop + '.json'), ev)
+        write_json(os.path.join(OUTROOT, 'evidence', prop + '.json'), ev)
     print('%s %s: units=%d states=%d transitions=%d evaluations=%d nontrivial=%d violations=%d known_cells=%d exhaustive=%s wall=%.1fs (build %.1fs)' % (
         prop, tier, len(units_info), cov['states'], cov['transitions'], cov['evaluations'], cov['distinct_nontrivial'], len(seen_keys),
         sum(n for _, n in known_hit.values()), cov['exhaustive'], wall, t_build))
